@@ -109,9 +109,27 @@ pub fn cmd_check(yaml: &str, src: &str, ext: &str, printed: Option<&str>) -> Str
     if std::fs::create_dir_all(&dir).is_err() {
         return "n/a".to_string();
     }
+    // The statement is reached through a symbolic link: the path the user TYPES is `<dir>/via/statement.ext`, the file lives in
+    // `<dir>/decoy-dir-zzz/`.  The configuration gets one more document whose `path` matches only the real location; a command
+    // that selects configuration by anything but the path as typed picks it up (another account) and the outputs differ.
     let cfg_path = dir.join("config.yml");
-    let src_path = dir.join(format!("statement.{}", ext));
-    if std::fs::write(&cfg_path, yaml).is_err() || std::fs::write(&src_path, src).is_err() {
+    let real_dir = dir.join("decoy-dir-zzz");
+    let _ = std::fs::remove_dir_all(&real_dir);
+    let _ = std::fs::remove_file(dir.join("via"));
+    if std::fs::create_dir_all(&real_dir).is_err() {
+        return "n/a".to_string();
+    }
+    #[cfg(unix)]
+    let linked = std::os::unix::fs::symlink("decoy-dir-zzz", dir.join("via")).is_ok();
+    #[cfg(not(unix))]
+    let linked = false;
+    let src_path = if linked { dir.join("via").join(format!("statement.{}", ext)) } else { dir.join(format!("statement.{}", ext)) };
+    let yaml2 = if linked {
+        format!("{}{}---\npath: decoy-dir-zzz/\naccount: Decoy:Selected By Canonical Path\n", yaml, if yaml.ends_with('\n') { "" } else { "\n" })
+    } else {
+        yaml.to_string()
+    };
+    if std::fs::write(&cfg_path, yaml2).is_err() || std::fs::write(&src_path, src).is_err() {
         return "n/a".to_string();
     }
     let r = sx::catch(std::panic::AssertUnwindSafe(move || {
